@@ -35,6 +35,17 @@ class SimFile(io.StringIO):
         return io.StringIO.read(self, *a)
 
 
+def hash_path(p):
+    """A stable inode number for a path (not Python's salted hash)."""
+    import hashlib
+    return int(hashlib.sha256(p.encode('utf-8')).hexdigest()[:12], 16)
+
+
+def os_stat_result(t):
+    import os
+    return os.stat_result(t)
+
+
 class SeamGap(BaseException):
     """pgradd used a part of `os` that SimFS does not simulate.  Not an
     Exception on purpose: it must not be taken for a failure of the code
@@ -77,6 +88,14 @@ class SimPath(object):
 
     def samefile(self, a, b):
         return self.abspath(a) == self.abspath(b)
+
+    def getmtime(self, p):
+        return self._fs.os.stat(p).st_mtime
+
+    getctime = getatime = getmtime
+
+    def getsize(self, p):
+        return self._fs.os.stat(p).st_size
 
     def abspath(self, p):
         if not posixpath.isabs(p):
@@ -165,6 +184,29 @@ class SimOS(object):
     def getcwd(self):
         return self._fs.cwd
 
+    def stat(self, p, **kw):
+        """Size from the text, a fixed modification time per file (SimFS
+        files never change during a run), regular file or directory."""
+        import stat as _stat
+        q = self.path.abspath(p)
+        self._fs.log.append(['stat', q])
+        if q in self._fs.files:
+            mode, size = _stat.S_IFREG | 0o644, len(self._fs.files[q])
+        elif self.path._isdir(q):
+            mode, size = _stat.S_IFDIR | 0o755, 4096
+        else:
+            raise FileNotFoundError(errno.ENOENT, 'No such file or directory',
+                                    p)
+        t = self._fs.mtimes.get(q, 1.0e9)
+        return os_stat_result((mode, abs(hash_path(q)) % 10**9, 1, 1, 0, 0,
+                               size, t, t, t))
+
+    lstat = stat
+
+    def access(self, p, mode=0):
+        q = self.path.abspath(p)
+        return q in self._fs.files or self.path._isdir(q)
+
     def fspath(self, p):
         return p if isinstance(p, str) else p.__fspath__()
 
@@ -186,6 +228,7 @@ class SimFS(object):
         self.cwd = cwd
         self.log = []
         self.path_map = []        # [(real prefix, simulated prefix)]
+        self.mtimes = {}          # path -> modification time (default 1e9)
         self.faults = []          # list of fault dicts (the plan)
         self.fired_counts = {}
         self.os = SimOS(self)
